@@ -7,6 +7,7 @@ from hypothesis import strategies as st
 from vf import common
 from vf.common import Violation
 from vf.ref import codec
+from vf.ref import ota as O
 from vf.ref import tables as T
 from vf.ref import validate as V
 
@@ -236,6 +237,9 @@ def stream_cases(draw):
         sub = draw(st.integers(0, T.MAX_SUB[version][cmd]))
         good, bad = T.exemplars(T.payload_rule(version, cmd, sub))
         payloads = [good] + ([bad] if bad is not None else [])
+        if cmd == T.STREAM and sub in (0, 2):
+            # a well-formed firmware config / block request for the firmware of the prelude
+            payloads = payloads + [O.words_hex(1, 1, 8, 0xABCD, 0x0102) if sub == 0 else O.words_hex(1, 1, draw(st.integers(0, 3)))]
         base = (draw(st.sampled_from([1, 2, 254])), draw(st.sampled_from([0, 1, 255])), cmd, 0, sub, draw(st.sampled_from(payloads)))
         group = [base]
         for _ in range(draw(st.integers(1, 3))):
@@ -253,7 +257,9 @@ def stream_cases(draw):
                 sib[4] = draw(st.integers(0, T.MAX_SUB[version][cmd] + 1))
             group.append(tuple(sib))
         lines.extend(draw(st.permutations(group)))
-    return {"version": version, "lines": [list(f) for f in lines]}
+    # the state the gateway is in when it judges the lines: fresh, or with node 1 known / asleep / in the middle
+    # of a firmware update (the verdict must not depend on it)
+    return {"version": version, "lines": [list(f) for f in lines], "prelude": draw(st.sampled_from(["fresh", "known", "ota", "ota", "sleeping"]))}
 
 
 def judge_stream(case, stats):
@@ -278,17 +284,34 @@ def judge_stream(case, stats):
     Message.validate = spy
     try:
         driver = drive.Driver(version, "sync")
+        prelude = case.get("prelude", "fresh")
+        if prelude != "fresh":
+            for text in ("1;255;0;0;17;2.0", "1;0;0;0;6;t", "1;1;0;0;3;l", "2;255;0;0;17;2.0"):
+                driver.line(text)
+        if prelude == "ota":
+            driver.update_fw([1], 1, 1, image=bytes(range(40)))
+            driver.line("1;255;4;0;0;" + O.words_hex(9, 9, 1, 0xABCD, 0x0102))
+            driver.line("1;255;4;0;2;" + O.words_hex(1, 1, 0))
+        if prelude == "sleeping" and T.wake_sub(version) is not None:
+            driver.line(f"1;255;3;0;{T.wake_sub(version)};5")
         mixed = set()
         for index, fields in enumerate(case["lines"]):
             fields = tuple(fields)
             ref = V.validate(version, fields)
             del seen[:]
+            before = driver.snapshot() if ref is False else None
             step = driver.line(codec.encode(fields))
             if step.exc is not None:
                 if ref is False:
                     raise Violation(f"inbound.raises.{type(step.exc).__name__}", case, f"line {index} {codec.encode(fields)!r} (invalid) made the pump raise {step.exc!r}")
                 return  # crashes on accepted lines are C01's business
             mine = [ok for f, ok in seen if f == fields]
+            if ref is False and not mine and (step.sent or step.callbacks or driver.snapshot() != before):
+                # no verdict was observed because the line was never validated - yet it was acted upon
+                raise Violation(
+                    "inbound.accepts_invalid.unvalidated", case,
+                    f"version {version} [{prelude}]: line {index} {codec.encode(fields)!r} is invalid ({clause_failures(version, fields)}) but the gateway acted on it without validating it: sent={step.sent} callbacks={len(step.callbacks)}",
+                )
             if ref is None or not mine:
                 continue
             mixed.add(ref)
